@@ -185,6 +185,32 @@ def run_task(t):
         else:
             fd._store_slot(ids, t['key'], vals, tuple(t['stored']), allow_overwrite=True)
         return {'answers': bool(fd._slot_answers(t['key'], tuple(t['options'])))}
+    if kind == 'random_mesh':
+        # generate_random_mesh: Delaunay mesh of a jittered lattice -> tiles the convex hull of its nodes
+        from femio.util import random_generator
+        from scipy.spatial import ConvexHull
+        np.random.seed(t['np_seed'])
+        dim = 3 if t['type'] == 'tet' else 2
+        fd = random_generator.generate_random_mesh(
+            t['type'], t['n_point'], x_length=t['lx'], y_length=t['ly'], z_length=t['lz'],
+            noise_scale=t['noise_scale'])
+        res = {'n_nodes': len(fd.nodes.ids), 'n_elements': len(fd.elements.ids),
+               'hull': fhex(ConvexHull(fd.nodes.data[:, :dim]).volume),
+               'leftover_keys': sorted(str(k) for k in fd.elemental_data.keys())}
+        if dim == 3:
+            for mode in ('linear', 'centroid'):
+                res[mode] = arr(np.asarray(fd.calculate_element_volumes(
+                    mode=mode, raise_negative_volume=False))[:, 0])
+        else:
+            for mode in ('linear', 'centroid'):
+                res[mode] = arr(np.asarray(fd.calculate_element_areas(mode=mode, return_abs_area=False))[:, 0])
+            res['normals_z'] = arr(np.asarray(fd.calculate_element_normals())[:, 2])
+        try:
+            fd.calculate_element_metrics()
+            res['default_metrics_raises'] = False
+        except ValueError:
+            res['default_metrics_raises'] = True
+        return res
     if kind == 'brick':
         from femio.util import brick_generator
         kw = {}
